@@ -119,7 +119,7 @@ func (root *Root) ResolveExecutable(
 			subMap, _ := result["data"].(map[string]interface{})
 			for _, val := range subMap {
 				if sub, _ := val.(*Subscription); sub != nil {
-					root.subscribe(sub)
+					root.subscribe(sub, opVars)
 					found = true
 				}
 			}
